@@ -6,6 +6,8 @@ import time
 from . import harness as H
 
 CHECKS = {
+    "C11:pickle": lambda: H.chk_pickle(),
+    "C16:sharing": lambda: H.chk_sharing(),
     "C06:Bag.json": lambda: H.chk_tojson_frame("Bag"),
     "C15:SparselyBin.json": lambda: H.chk_c15("SparselyBin"),
     "C15:version": lambda: H.chk_version(),
